@@ -265,7 +265,7 @@ def plainPayloadsB (cfg : LeafCfg) (scr : LeafScript) : Bool :=
 
 /-- all property predicates for one run, on an observation `o` -/
 def judgeRun (env : Env) (ctx0 : Ctx) (root : NodeId) (vis : NodeId → Nat) (cancelFree : Bool)
-    (o : RunObs) (flat ref : RunObs) : List (String × Bool) :=
+    (o : RunObs) (flat ref : RunObs) (allPrep : Bool := true) : List (String × Bool) :=
   let segs := segments (noWaits o.trace)
   let leafSegs := segs.filterMap fun (k, seg) =>
     match env.arena k.1 with | .leaf cfg => some (cfg, env.leafBeh k.1 k.2, k, seg) | _ => none
@@ -287,7 +287,7 @@ def judgeRun (env : Env) (ctx0 : Ctx) (root : NodeId) (vis : NodeId → Nat) (ca
   let c11f := (match env.arena root with | .batch _ => true | _ => false) || Spec.c11Flow env ctx0 o
   -- C17 speaks of payloads that are not themselves `flyt.Result`s (`Proofs.Payload.PlainPayloads`, boundary B2)
   let c17 := leafSegs.all (fun (cfg, scr, _, seg) => !plainPayloadsB cfg scr || c17Visit cfg scr seg)
-  let c18 := Spec.c18 o && (!cancelFree || Spec.c18Followed env root o)
+  let c18 := Spec.c18 o && (!cancelFree || !allPrep || Spec.c18Followed env root o)
   let bj := judgeBatchRoot env root vis cancelFree o
   let c02 := c02 && (bj.all fun (k, b) => k != "C02b" || b)
   let c17 := c17 && (bj.all fun (k, b) => k != "C17b" || b)
@@ -356,8 +356,10 @@ def process (sc : ScJ) (obs : ObsJ) : Except String Verdict := do
       let io := if io.out == .ok "*" then (match m.out with | .ok a => { io with out := .ok a } | _ => io) else io
       let (io, m, flat, ref) := if wide then (canon io, canon m, canon flat, canon ref) else (io, m, flat, ref)
       agree := agree && (io == m)
-      for (k, b) in judgeRun env ctx0 root vis cancelFree io flat ref do spec := andAll spec k b
-      for (k, b) in judgeRun env ctx0 root vis cancelFree m flat ref do specModel := andAll specModel k b
+      -- `c18Followed` reads visits off the callback trace: every leaf must have a prep callback (`C18.c18Followed_bridge`'s `hprep`)
+      let allPrep := nodes.all fun p => match p.2 with | .leaf c => c.prepS != .absent | _ => true
+      for (k, b) in judgeRun env ctx0 root vis cancelFree io flat ref allPrep do spec := andAll spec k b
+      for (k, b) in judgeRun env ctx0 root vis cancelFree m flat ref allPrep do specModel := andAll specModel k b
       -- non-triviality per property (measured on the model's run)
       let tr := m.trace
       let nExec := (tr.filter isExecEv).length
